@@ -557,7 +557,8 @@ class NetworkGraph(AbstractBaseIR):
 
                 # Build chain input: use source var directly when the group covers all its elements in their own order
                 # (a permuted group must be indexed, otherwise slot i is fed by source element i instead of its own)
-                if src_indices == list(range(n_src_var)):
+                if src_indices == list(range(n_src_var)) or n_src_var <= 1:
+                    # (a scalar source is not indexed: it feeds every slot of the chain)
                     chain_in = var
                 elif G == 1:
                     chain_in = f"index({var}, {src_indices[0]})"
